@@ -108,9 +108,8 @@ NamesStatus(lx, err, st) ==
     /\ \/ (TextOf(lx, st) # <<>> /\ ContainsSeq(err.s, TextOf(lx, st)))
        \/ ContainsSeq(Lower(err.s), Hex2(st))
 
-(* failing services logged for the slice of request i (same tag and offset) *)
-SvcFor(lx, key, off) == SelectSeq(lx.svclog, LAMBDA e : e.key = key /\ e.off = off)
-FailedSvc(e) == ~(e.status = 0 \/ (e.status = 6 /\ e.svc = 82))
+(* failed services logged for the slice of request i (same tag and offset) *)
+SvcFor(lx, key, off) == IF Len(lx.svclog) = 0 THEN <<>> ELSE SelectSeq(lx.svclog, LAMBDA e : e.key = key /\ e.off = off)
 
 (* ------------------------------------------------ obligations ------------------------------------------------ *)
 RetR(fail, lx) == [fail |-> fail, lx |-> lx]
@@ -121,8 +120,8 @@ JudgeRead(lx, it, tg, anyInvalid, connsize) ==
     LET e == ExpectRead(lx, it)
         big == e.len + 64 >= connsize
         fsv == IF e.cls = "valid" THEN SvcFor(lx, e.key, e.off) ELSE <<>>
-        allFailed == Len(fsv) > 0 /\ \A k \in 1..Len(fsv) : FailedSvc(fsv[k])
-        someFailed == \E k \in 1..Len(fsv) : FailedSvc(fsv[k])
+        allFailed == Len(fsv) > 0 /\ <<e.key, e.off>> \notin lx.okslices
+        someFailed == Len(fsv) > 0
     IN
     IF e.cls = "unspec" THEN ""
     ELSE IF e.cls = "invalid" THEN
@@ -148,7 +147,7 @@ ReadRet(lx, call, ev, connsize) ==
     ELSE IF n > 1 /\ ev.result.single # 0 THEN RetR("C03:shape", lx)
     ELSE IF Len(tgs) # n THEN RetR("C03:count", lx)
     ELSE IF ev.faulted = 1 THEN RetR("", lx)
-    ELSE LET anyInv == \E i \in 1..n : ExpectRead(lx, items[i]).cls = "invalid"
+    ELSE LET anyInv == n <= 400 /\ \E i \in 1..n : ExpectRead(lx, items[i]).cls = "invalid"
              cs == [i \in 1..n |-> JudgeRead(lx, items[i], tgs[i], anyInv, connsize)]
          IN RetR(FirstBad(cs), lx)
 
@@ -161,9 +160,8 @@ ApplyTruthy(lx, items, tgs, i) ==
 
 JudgeWrite(lx, it, tg, anyInvalid, connsize) ==
     LET w == ExpectWrite(lx, it)
-        fsv == IF w.cls = "valid" THEN SvcFor(lx, w.key, IF w.bit >= 0 THEN w.off - ((w.off) % 1) ELSE w.off) ELSE <<>>
-        failedHere == {k \in 1..Len(lx.svclog) : lx.svclog[k].key = w.key /\ FailedSvc(lx.svclog[k])}
-        okHere == {k \in 1..Len(lx.svclog) : lx.svclog[k].key = w.key /\ ~FailedSvc(lx.svclog[k])}
+        failedHere == {k \in 1..Len(lx.svclog) : lx.svclog[k].key = w.key}
+        okHere == {sl \in lx.okslices : sl[1] = w.key}
     IN
     IF w.cls = "unspec" THEN ""
     ELSE IF w.cls = "invalid" THEN
